@@ -407,8 +407,17 @@ def real_hist_line(obs, ops):
             break
         if op[0] == 'add':
             nadd_after += 1
-    return 'hz=%s t=%s created=%d fired=%d pending=%d sorted=%s run=%s created=%s' % (
-        rat(last['hz']), rat(last['t1']), last['ctr'] + nadd_after, len(fires), len(last['queue']) + nadd_after,
+    fuels = set()
+    fuel = FUEL
+    for op in ops:
+        if op[0] == 'guard':
+            fuel = int(op[1])
+        elif op[0] == 'evolve':
+            fuels.add(fuel)
+    # `replay`: the model re-ran the whole history through runOps with one entry-only callback table and one fuel and
+    # got the same Hist (not attempted when the guard, i.e. the fuel, changed within the history)
+    return 'replay=%s hz=%s t=%s created=%d fired=%d pending=%d sorted=%s run=%s created=%s' % (
+        'true' if len(fuels) <= 1 else 'na', rat(last['hz']), rat(last['t1']), last['ctr'] + nadd_after, len(fires), len(last['queue']) + nadd_after,
         'true' if all(a < b for a, b in zip(keys, keys[1:])) else 'false',
         ';'.join('%s:%d:%d' % (rat(e[1]), e[2], e[3]) for e in fires),
         ';'.join('%s:%d:%d' % (rat(t), c, i) for (t, c, i) in last['created']))
@@ -445,7 +454,14 @@ def real_line(o):
     # an entry the harness did not schedule itself (re-inserted by the implementation) prints as id -1:
     # that is a correspondence difference, never a harness fault
     q = ';'.join('%s:%d:%d' % (rat(t), c, ids.get((t, c), -1)) for (t, c) in o['queue'])
-    return '%s t=%s ctr=%d trace=%s queue=%s' % (o['status'], rat(o['t1']), o['ctr'], ';'.join(ev), q)
+    # the integration intervals as the real clock moved over them (clock when integrate() was entered > the next clock
+    # observed), the total movement of the clock, the clock the last callback saw: Lean `intervals`, `sumDt`,
+    # `lastFireClock` of the model's trace (intervals_tile, trace_consistent, final_clock_exact)
+    iv = ';'.join('%s>%s' % (rat(before), rat(after if after is not None else before + dt)) for dt, before, after in stretches(o))
+    fires = [e for e in o['events'] if e[0] == 'F']
+    return '%s t=%s ctr=%d trace=%s queue=%s iv=%s sum=%s lfc=%s same=true' % (
+        o['status'], rat(o['t1']), o['ctr'], ';'.join(ev), q, iv, rat(Fraction(o['t1']) - Fraction(o['t0'])),
+        rat(fires[-1][4] if fires else o['t0']))
 
 
 def model_lines(ops):
@@ -454,7 +470,8 @@ def model_lines(ops):
     fuel = FUEL
     for op in ops:
         if op[0] == 'kids':
-            lines.append('C20 kids %d %s' % (op[1], ','.join('%s:%d' % (rat(k[0]), k[1]) for k in op[2])))
+            lines.append('C20 kids %d %s' % (op[1], ','.join(
+                '%s:%d:%s' % (rat(k[0]), k[1], 'c' if len(k) > 2 and k[2] == 'clock' else 'o') for k in op[2]) or '-'))
         elif op[0] == 'add':
             lines.append('C20 add %s %d' % (rat(op[1]), op[2]))
         elif op[0] == 'mode':
@@ -701,9 +718,8 @@ def run(ctx):
     for style, ops in hist:
         obs = check_history(ctx, style, ops)
         if clock_relative(ops):
-            ctx.count('histories_oracle_only_clock_relative_children')
+            ctx.count('histories_with_clock_relative_children')
             ctx.count('clock_relative_wf:%s' % (obs[-1]['wf'] if obs else True))
-            continue
         lines, idx = model_lines(ops)
         base = len(all_lines)
         all_lines += lines
